@@ -51,6 +51,21 @@ func stopper(job vx.Job) func() bool {
 	}
 }
 
+// skipLate: a job that is started after the run's soft deadline does nothing and reports itself incomplete.
+func skipLate(job vx.Job, res *vx.Result) bool {
+	if os.Getenv("VERIF_ROLE") == "replay" {
+		return false
+	}
+	d, err := strconv.ParseInt(job.Args["deadline"], 10, 64)
+	if err != nil || d <= 0 || time.Now().Unix() <= d {
+		return false
+	}
+	res.Count("incomplete_jobs", 1)
+	res.Count("jobs_not_started_before_deadline", 1)
+	res.Outcome = "skipped-after-deadline"
+	return true
+}
+
 func opsString(ops []op) string {
 	ss := make([]string, len(ops))
 	for i, o := range ops {
@@ -313,6 +328,9 @@ func stepBeliefModelOnly(kd *kind, belief []mstate, o op) ([]mstate, []string) {
 // All sequences of length depth that start with prefix; nodes of depth <= mincheck are not
 // checked or counted here (the job with the empty prefix and depth = mincheck does that).
 func execSeq(t *testing.T, job vx.Job) (res vx.Result) {
+	if skipLate(job, &res) {
+		return
+	}
 	kd := kinds[job.Args["store"]]
 	if kd == nil {
 		res.HarnessErr = "unknown store " + job.Args["store"]
